@@ -7,9 +7,18 @@ MANIFEST = {
             '(no task execution is created by any delivery or command other than resume while PAUSED); '
             'paused_stays_paused. The model is tied to the real engine by the `core` stream: after EVERY event '
             '(message, post-commit operation, scheduler job, action result, pause/resume/stop) committed rows and '
-            'pending deliveries of the real engine must equal the model. "Same result after resume" is decided by the '
-            'engine stream (paired paused/unpaused runs of generated programs, monitors read on the real traces), not '
-            'by a theorem.',
+            'pending deliveries of the real engine must equal the model. "SAME RESULT AFTER RESUME" IS A THEOREM of the '
+            'engine model (Mistral.Props.C02Sem, see C02): the engine model refines the declarative semantics Mistral.Sem '
+            '(outcome = function of definition + action results), for every definition of the class (acyclic, SpecOK: joins of '
+            'every kind, forks, several activations), every oracle and every plain history with pause / resume ANYWHERE: '
+            'sound, complete_at_quiescence_partial, pause_resume_same_outcome_partial (a quiescent history with pause / resume '
+            'rounds has the same workflow state and set of task rows (name, state, next_tasks) as ANY quiescent history that '
+            'was never paused). At full strength the statement is FALSE of the code: pause_resume_same_outcome_full_fails '
+            '(resume re-queues start_task(first_run=False) for a task that is still IDLE; delivered after the task has FAILED '
+            'it runs the failed task again - witness proved in Lean, replayed on the real engine, known finding); the other '
+            'excluded class is the C01 finding (PausedClean). Tie: stream `sem` (real engine with pause / resume rounds at '
+            'random points run to quiescence vs the semantics computed by the Lean driver). Programs with data flow: engine '
+            'stream (paired paused/unpaused runs of generated programs, monitors read on the real traces).',
     'note': 'One event = one committed transaction (in-process atomicity); multi-process sub-transaction races are '
             'not exhibited. Data flow/expressions/policies/sub-workflows are outside Mistral.Engine (covered by the '
             'monitors only). Sub-workflow pause propagation: monitors only.',
@@ -17,9 +26,9 @@ MANIFEST = {
 RULE = ('stream core: data-free single-activation programs x oracles x schedules x pause/resume/stop at random points, '
         'model vs real after every event; stream engine (mode pause): generated programs with data flow, pause and '
         'resume at random points, paired with the unpaused run; non-trivial = a join or an operator command in the '
-        'trace; distinct = distinct (definition, oracle, schedule seed, commands)')
+        'trace; distinct = distinct (definition, oracle, schedule seed, commands); stream sem as in C02')
 TRUSTED = ['harness seams (post-commit thread, RPC client, executor, scheduler dispatcher) replaced by recorders']
-LEAN_MODULES = ['Mistral.Props.C10']
+LEAN_MODULES = ['Mistral.Props.C10', 'Mistral.Props.C02Sem']
 
 
 def correspond(ctx):
@@ -28,6 +37,8 @@ def correspond(ctx):
                      + [{'n_programs': ctx.n(10, 300), 'mode': 'mixed'}] * 7)
     par.run_parallel(ctx, 'harness.engine_stream', 'run_chunk',
                      [{'n_programs': ctx.n(10, 300), 'props': ['C10'], 'mode': 'pause'}] * 14)
+    # "same result after resume" against the declarative semantics (theorem pause_resume_same_outcome_partial)
+    par.run_parallel(ctx, 'harness.sem_stream', 'run_chunk', [{'n_programs': ctx.n(5, 150)}] * 14)
 
 
 def search(ctx):
@@ -37,5 +48,9 @@ def search(ctx):
 
 
 def replay(ctx, rep):
+    if isinstance(rep.get('replay'), dict) and rep['replay'].get('stream') == 'sem':
+        from harness import sem_stream
+        sem_stream.replay(ctx, rep)
+        return
     from harness import engine_stream
     engine_stream.replay(ctx, rep, ['C10'])
